@@ -114,10 +114,14 @@ def project(ex, h):
     return out
 
 
-def run(tier, work):
+def run(tier, work, verdict=None):
+    """verdict: used by checks/c09.py - the same histories and validation, violations added to that verdict (C09: an error
+    in one object's reset() / clean_up() must not deprive the other objects of theirs)"""
     t0 = time.time()
     exe = build.ensure_harness("vdrv", ["vdrv.cpp"])
-    verdict = vlib.Verdict(PROP)
+    own = verdict is None
+    if own:
+        verdict = vlib.Verdict(PROP)
     hists, gs = vlib.generate(SPEC, "LifecycleGen", "GenQuick.cfg" if tier == "quick" else "GenThorough.cfg", work, "p2a", timeout=1800,
                               cap=(None if tier == "quick" else 40000))
     nsim = 2500 if tier == "quick" else 30000
@@ -150,6 +154,8 @@ def run(tier, work):
         verdict.add(sig, [json.dumps(allh[badi])] + [json.dumps(p) for p in projs[badi][:upto + 1]],
                     "first unexplainable event #%d: %s" % (upto + 1, json.dumps(bad)[:300]))
     print("TLC P3 LifecycleTrace: %d executions / %d events accepted (%d resets, %d clean_ups)" % (accepted, nevents, nres, ncu))
+    if not own:
+        return accepted
     rc = verdict.finish()
     vlib.write_evidence(PROP, tier, "model_checking", dict(
         states=max(1, gs["states"]), transitions=max(1, gs["transitions"]), traces_validated_against_impl=accepted, evaluations=len(exs),
